@@ -273,8 +273,8 @@ func (p *TPath) envSources() (dep, src, local string) {
 			} else {
 				fmt.Fprintf(&depB, "type %s interface{ M%s() }\n", cq, cq)
 			}
-			tparams = append(tparams, tpName(ii, pi)+" dep."+cq)
-			targs = append(targs, tpName(ii, pi))
+			tparams = append(tparams, e.tpSrcName(ii, pi)+" dep."+cq)
+			targs = append(targs, e.tpSrcName(ii, pi))
 			usesDep = true
 		}
 		var meths []string
@@ -284,6 +284,7 @@ func (p *TPath) envSources() (dep, src, local string) {
 				t := e.paramType(ii, mi, pi)
 				name := strip(t)
 				switch {
+				case m.TPType && pi == 0 && is.NTP > 0:
 				case strings.HasPrefix(name, "SP"):
 					srcTypes += fmt.Sprintf("type %s struct{ f%s int }\n", name, name)
 					t = name
@@ -369,7 +370,7 @@ func (p *TPath) envSources() (dep, src, local string) {
 
 var (
 	stubCache = map[string]*types.Package{}
-	rePlace   = regexp.MustCompile(`\b(p|r|TP|EP|TR|NR|NP|SP|SR|Q|CQ|fTP|fEP|fTR)[a-z]\d+(x\d+)?\b`)
+	rePlace   = regexp.MustCompile(`\b(p|r|TP|EP|TR|NR|NP|SP|SR|Q|q|CQ|fTP|fEP|fTR)[a-z]\d+(x\d+)?\b`)
 	reMeth    = regexp.MustCompile(`Meth[A-Z]\d+`)
 	reIface   = regexp.MustCompile(`\bIface[A-Z]\b`)
 	reMock    = regexp.MustCompile(`\b[Mm]ock[A-Z]\b`)
